@@ -10,6 +10,7 @@ mod retain;
 mod hirdb;
 mod parse;
 mod stbc;
+mod stcore;
 mod util;
 
 fn main() {
@@ -24,6 +25,11 @@ fn main() {
         "fb-run" => fb::run(rest),
         "ctrlauth-gen" => ctrlauth::gen(rest), "ctrlauth-run" => ctrlauth::run(rest),
         "resource-run" => resource::run(rest),
+        "stcore-gen" => stcore::gen(rest),
+        "stwide" => stcore::wide(rest),
+        "stwide-child" => stcore::wide_child(rest),
+        "stwide-why" => stcore::wide_why(rest),
+        "stcore-run" => stcore::run(rest),
         "retain-child" => retain::child(rest),
         "retain-run" => retain::run(rest),
         "hirdb-gen" => hirdb::gen(rest),
